@@ -146,6 +146,28 @@ def honoured(E, R, L, marker):
         _stub(E, R, False)
 
 
+def deep_master(E, R, L):
+    """a wallet whose master node is not at depth 0 (built from an account-level extended key): every component
+    of the path is still applied below that node"""
+    _stub(E, R, True)
+    try:
+        k, kb = cm.sym_scalar(E, "k")
+        c = E.bytes("c", 32)
+        depth = E.bv("depth", 8, lo=1, hi=250)
+        master = R.bip32.PrvKeyNode(key=kb, chain_code=c, depth=depth, index=E.bv("pidx", 32), parent_fingerprint=E.bytes("fp", 4))
+        w = R.base_wallet.BaseWallet(master=master)
+        l = [E.int("i%d" % j, 0, 2 ** 32 - 1) for j in range(L)]
+        node = E.run(w.by_path, fmt(E, "m", [tok(E, v, "'") for v in l]))
+        if isinstance(node, Raised):
+            E.fail("by_path derives below a non-root master")
+            return "raised"
+        E.check_eq(list(Rec.calls), l, "by_path on a non-root master applies every component of the path")
+        E.check_eq(chain(node), l, "returned node sits L levels below the master")
+        return "ok"
+    finally:
+        _stub(E, R, False)
+
+
 def history(E, R, L1, L2):
     """a second lookup on the same wallet is not influenced by the first one"""
     _stub(E, R, True)
@@ -303,6 +325,9 @@ def cases(tier):
     for L in range(0, 6):
         cs.append(Case("honoured[%d]" % L, "honoured", dict(L=L, marker="'" if L % 2 else "h"), weight=2 ** L,
                        need=("by_path issues exactly the derivations l[0], l[1], ...",), max_paths=100000))
+    for L in (1, 2, 3, 5):
+        cs.append(Case("deep_master[%d]" % L, "deep_master", dict(L=L), weight=2 ** L, max_paths=100000,
+                       need=("by_path on a non-root master applies every component of the path",)))
     for L1, L2 in ((1, 1), (2, 2), (3, 2), (2, 3), (1, 3)):
         cs.append(Case("history[%d,%d]" % (L1, L2), "history", dict(L1=L1, L2=L2), weight=2 ** (L1 + L2), max_paths=100000,
                        need=("second lookup returns the node at its own path",)))
